@@ -6,15 +6,15 @@ of every block and compared after the `__exit__` of THAT block (modulo list orde
 (`bcc.context_c03.alphabet`) in 1-3 nested blocks that are left normally or by an exception (a sentinel at the end of
 a block, or the exception an operation raises naturally, propagating or caught).
 
-A failing history is shrunk to a 1-minimal failing sub-history; the key of a failure is the structural rendering of
-that minimal history with coarse operation kinds (e.g. ``W[W[imul:positive]]``), mapped through DEFECTS to the key of
-the underlying defect when the minimal history is a known witness of it (one defect -> one key).
+A failing history is shrunk to a 1-minimal failing sub-history, and that one is attributed to a defect by running it
+under the candidate repairs of `bcc.context_c03.REPAIRS` (in-process wrappers around the current cobra code, never
+applied to /repo): the key of a failure is the key of the single repair under which its minimal history passes (one
+defect -> one key, e.g. ``nested:undo-recorded-in-enclosing-context``), or - when no repair explains it - the structural
+rendering of the minimal history with coarse operation kinds (e.g. ``W[bounds,W[objective_direction]!]``).
 """
 import json
 import multiprocessing
-import os
 import random
-import re
 import time
 import warnings
 
